@@ -171,6 +171,23 @@ def enumerate_shipped(tier, seed, shard, nshards):
             yield {"trans": {"name": name}, "X": [rnd.uniform(-5e7, 5e7) for _ in range(3)]}
 
 
+def _sphere_point(u_az, u_z, u_r, rmax):
+    """A point whose direction is uniform on the sphere (so that no direction - a rotation axis, a pole - is favoured or starved)
+    and whose distance from the origin is half uniform up to rmax, half log-uniform 1 m .. rmax."""
+    z = 2.0 * u_z - 1.0
+    k, r = S.u_pick(u_r, [0, 1])
+    rad = rmax * r if k == 0 else 10.0 ** (math.log10(rmax) * r)
+    p = math.sqrt(max(0.0, 1.0 - z * z))
+    lam = 2.0 * math.pi * u_az
+    return [rad * p * math.cos(lam), rad * p * math.sin(lam), rad * z]
+
+
+def _fill_build(u):
+    names = TR.shipped_names()
+    name, r = S.u_pick(u[3], names)
+    return {"trans": {"name": name}, "X": _sphere_point(u[0], u[1], u[2], 5e7)}
+
+
 def _nt(case):
     t = case["trans"]
     if "name" in t:
@@ -211,6 +228,9 @@ SUBCHECKS = [
     SubCheck("reverse_shipped_sets", check_reverse, enumerate=enumerate_shipped, nontrivial=_nt, classes=_classes,
              shards_quick=2, shards_thorough=8, exhaustive="both",
              rule="all shipped sets: T then -T within 0.01 mm (2 mm for AGD66/84 sets) and within 2 um of the exact composition"),
+    SubCheck("formula_fill", check_formula, enumerate=S.fill(606, 4, _fill_build, 40000, 800000), nontrivial=_nt, classes=_classes,
+             shards_quick=12, shards_thorough=16,
+             rule="low-discrepancy fill of shipped set x direction (uniform on the sphere) x distance from the origin (uniform / log-uniform to 5e7 m): 40 000 / 800 000 points"),
     SubCheck("formula_generated", check_formula, strategy=cases, nontrivial=_nt, classes=_classes,
              quick=2500, thorough=250000, shards_quick=3, shards_thorough=12, seq_groups=[["trans"], ["X", "num"]],
              fresh=(12, 96, 4), fresh_first=_int_first,
